@@ -886,7 +886,8 @@ class Evaluator:
             p.effects.append(Effect("map", line, target=rname, op=m, args=args, arg_descs=descs))
             if m == "get":
                 p.ret = Opt(Obj("entry:" + rname, {"map": Num("usize", p_var("label.map"))}), True)
-            elif m in ("contains_key", "contains"):
+            elif m in ("contains_key", "contains") or (m in ("insert", "remove") and rname in ("context.undefined_labels", "context.macro_nesting_counter")):
+                # membership tests, and the bool a set's insert/remove reports (new element / element was present)
                 p.ret = Bool(None, desc=f"{rname}.{m}({','.join(descs)})")
             else:
                 p.ret = Top("map-op")
